@@ -1052,6 +1052,11 @@ class XNP:
         return x * x
 
     def power(self, x, k):
+        if isinstance(x, SC) and isinstance(k, numpy.ndarray) and k.dtype != object:
+            out = numpy.empty(k.shape, dtype=object)
+            for idx in numpy.ndindex(k.shape):
+                out[idx] = x ** int(k[idx]) if float(k[idx]) == int(k[idx]) else x ** float(k[idx])
+            return out.view(XArr)
         if isinstance(x, SC) or isinstance(k, SC):
             return SC.lift(x) ** k
         if isinstance(x, numpy.ndarray) and x.dtype == object:
@@ -1253,6 +1258,22 @@ class Env:
             self.assumptions.append(("%s>=%s" % (name, lo), v >= lo))
         if hi is not None:
             self.assumptions.append(("%s<=%s" % (name, hi), v <= hi))
+        return v
+
+    def bvar(self, name, lo, hi, bits=64):
+        """a free machine integer lo <= v <= hi as a z3 bit-vector (E-NS); a Python int in num mode"""
+        self.decl[name] = Decl("int", lo=lo, hi=hi)
+        if self.mode == "num":
+            if name in self.values:
+                return int(round(float(self.values[name])))
+            v = self.rng.randint(lo, hi)
+            self.values[name] = v
+            return v
+        v = self.vars.get(name)
+        if v is None:
+            v = self.vars[name] = z3.BitVec(name, bits)
+        self.assumptions.append(("%s>=%s" % (name, lo), z3.UGE(v, lo)))
+        self.assumptions.append(("%s<=%s" % (name, hi), z3.ULE(v, hi)))
         return v
 
     def pick_int(self, name, lo, hi):
@@ -1969,8 +1990,14 @@ def eval_term(t, val, cache=None):
         i = e.get_id()
         if i in cache:
             continue
-        if z3.is_int_value(e):
+        if z3.is_int_value(e) or z3.is_bv_value(e):
             cache[i] = e.as_long()
+            continue
+        if z3.is_fprm_value(e):
+            cache[i] = str(e)
+            continue
+        if z3.is_fp_value(e):
+            cache[i] = float(e.as_string()) if hasattr(e, "as_string") else float(str(e))
             continue
         if z3.is_rational_value(e):
             cache[i] = e.numerator_as_long() / e.denominator_as_long()
@@ -2038,6 +2065,34 @@ def eval_term(t, val, cache=None):
             r = v[1] if v[0] else v[2]
         elif k == z3.Z3_OP_IMPLIES:
             r = (not v[0]) or v[1]
+        # machine integers (non-negative, no wrap-around within the stated bounds) and IEEE doubles (E-NS)
+        elif k == z3.Z3_OP_BADD:
+            r = sum(v)
+        elif k == z3.Z3_OP_BMUL:
+            r = 1
+            for x in v:
+                r *= x
+        elif k == z3.Z3_OP_BSUB:
+            r = v[0] - v[1]
+        elif k in (z3.Z3_OP_BUDIV, z3.Z3_OP_BUDIV_I):
+            r = v[0] // v[1] if v[1] else 0
+        elif k in (z3.Z3_OP_ULEQ, z3.Z3_OP_SLEQ):
+            r = v[0] <= v[1]
+        elif k in (z3.Z3_OP_UGEQ, z3.Z3_OP_SGEQ):
+            r = v[0] >= v[1]
+        elif k == z3.Z3_OP_FPA_TO_FP:
+            r = float(v[-1])
+        elif k == z3.Z3_OP_FPA_MUL:
+            r = v[1] * v[2]
+        elif k == z3.Z3_OP_FPA_DIV:
+            r = v[1] / v[2]
+        elif k == z3.Z3_OP_FPA_ADD:
+            r = v[1] + v[2]
+        elif k == z3.Z3_OP_FPA_SUB:
+            r = v[1] - v[2]
+        elif k == z3.Z3_OP_FPA_TO_SBV:
+            mode = v[0]
+            r = int(v[1]) if "Zero" in mode or "RTZ" in mode else (math.floor(v[1]) if "Negative" in mode or "RTN" in mode else round(v[1]))
         else:
             raise HarnessError("eval_term: unsupported operator %s" % e.decl())
         cache[i] = r
